@@ -75,7 +75,7 @@ def write_pretree_lens(bw, rng, newlens, oldlens, first, last):
 def encode(rng, wbits, total, delta=False, ref=b'', e8=False, reset_interval=0, cuts=None, match_p=0.5, early=False):
     """returns (stream bytes, plaintext before E8 postprocessing is irrelevant: we only diff decoders)"""
     wsize=1<<wbits; nslots=SLOTS[wbits-15]; nmain=256+nslots*8
-    bw=BitW(); data=bytearray(); R=[1,1,1]
+    bw=BitW(); data=bytearray(); R=[1,1,1]; hostile_done=False
     # Intel E8 translation leaves the last 10 bytes of a frame alone: put CALL opcodes with small operands right around that limit
     forced={}
     if e8:
@@ -122,15 +122,17 @@ def encode(rng, wbits, total, delta=False, ref=b'', e8=False, reset_interval=0, 
                     toks.append(('L',forced[p])); p+=1; continue
                 nf=next((q for q in fpos if q>p), None)
                 if nf is not None: lim=min(lim,nf)
-                if maxoff>=1 and lim-p>=2 and rng.random()<match_p:
+                hostile2 = early==2 and p>=32768 and not hostile_done and lim-p>=2 and p+1<=wsize-3
+                if (maxoff>=1 and lim-p>=2 and rng.random()<match_p) or hostile2:
                     ml=rng.randint(2,min(257,lim-p)) if rng.random()<0.8 else min(257,lim-p)
                     mode=rng.random()
+                    if hostile2: mode=1.0; hostile_done=True
                     if mode<0.25 and r[0]<=maxoff: off=r[0]; slot=0
                     elif mode<0.35 and r[1]<=maxoff: off=r[1]; slot=1; r[0],r[1]=r[1],r[0]
                     elif mode<0.45 and r[2]<=maxoff: off=r[2]; slot=2; r[0],r[2]=r[2],r[0]
                     else:
                         off=rng.randint(1,maxoff) if rng.random()<0.7 else rng.choice([x for x in (1,2,3,maxoff,max(1,maxoff-1)) if x<=maxoff])
-                        if early==2 and 32768<=p<32768+200 and rng.random()<0.6:
+                        if hostile2 or (early==2 and 32768<=p<32768+200 and rng.random()<0.6):
                             # hostile: in a later frame, a match reaching beyond everything decoded so far (into window cells never written)
                             off=rng.randint(p+1, min(p+rng.choice([1,3,1000,30000]), wsize-3))
                         fo=off+2; slot=max(i for i in range(nslots) if POSBASE[i]<=fo)
